@@ -399,3 +399,20 @@ def c14(run):
     run.cov['rule'] = ('4 curves x key pairs (every third searched for a coordinate with a leading zero byte) x public-key encodings {uncompressed, compressed, compressed with stripped x, stripped coordinates, CBOR round trip} on both sides: both secrets equal and equal to the math/big computation; '
                        'invalid remote keys: private, other curve, off-curve y, compressed x that is no abscissa, x too long, x >= p, missing / text y, X25519 low-order and short points: an error, never a secret or a panic; KeyToPublic compared with the model on all of them; curve equation and decompression compared with crypto/elliptic')
     return D.finish(run, 'proof')
+
+
+@check('C15')
+def c15(run):
+    run.trusted += ['crypto/ed25519, crypto/ecdsa, crypto/elliptic, crypto/ecdh (Go standard library): seed -> public key, d -> d*G, curve membership and decompression enter the theorems as the record C and the correspondence as observed values',
+                    'stream keys: oracles on the implementation for generated keys of every type, conversions to and from Go key types, verifiers and key sets']
+    run.assumptions += ['decompression returns the point with the given abscissa and parity when it is on the curve: hypothesis of C15_compressed_equivalent (observed case by case)',
+                        'X25519 / P-curve ECDH key conversions (ecdh.ToPublicKey) are checked by oracle only; their model is part of C14']
+    D.prove(run, extra_targets=['Model/KeyEnc.vo'])
+    rc, o = D.harness_build()
+    if rc != 0:
+        run.broke('harness build', o[-1500:])
+    else:
+        D.correspond(run, 'keys', [], reference_theorem='C15_*_public_contents / C15_*_mismatch_refused / C15_coordinates_as_integers (models of ToPublicKey, NewSigner, NewVerifier)')
+    run.cov['rule'] = ('ECDSA keys from chosen scalars (small, and with leading zero bytes) on the 3 curves x {as built, with fixed-length x,y, with zero-stripped x,y, wrong x, wrong y, CBOR round trip}: ToPublicKey, NewSigner compared with the model; public keys {fixed, stripped, compressed, compressed+stripped, other sign bit}: NewVerifier compared, signature verified; '
+                       'Ed25519 {as built, with x, wrong x, with key_ops}; generated ECDH keys on 4 curves, symmetric keys of the 24 algorithms through the registry; derived keys, Verifier.Key() and Verifiers.KeySet() inspected for private or unexpected parameters; KeyToPrivate / KeyFromPrivate / KeyToPublic / KeyFromPublic inverses; emitted coordinate lengths')
+    return D.finish(run, 'proof')
